@@ -64,8 +64,12 @@ def cases(draw, max_chroms=4, max_bins=6, max_nnz=None, min_total_bins=0):
     x_dt = draw(st.sampled_from(["float64", "float64", "float32", "int16"]))
     y_dt = draw(st.sampled_from(["float64", "int16"]))
     explicit = draw(st.booleans())
-    form = draw(st.sampled_from(["frame", "frame-shuffled", "dict", "chunks-frame", "chunks-dict",
-                                 "chunks-frame", "arrayloader", "chunks-ensure-sorted", "dask", "chunks-default", "frame-rows-shuffled"]))
+    if min_total_bins:
+        # tall tables exist for the narrow id types: forms that make the library sort, and ids in 16/32-bit types
+        form = draw(st.sampled_from(["chunks-ensure-sorted", "chunks-ensure-sorted", "frame-shuffled", "frame-rows-shuffled", "chunks-default", "dict"]))
+    else:
+        form = draw(st.sampled_from(["frame", "frame-shuffled", "dict", "chunks-frame", "chunks-dict",
+                                     "chunks-frame", "arrayloader", "chunks-ensure-sorted", "dask", "chunks-default", "frame-rows-shuffled"]))
     if form == "arrayloader":
         symmetric, colset, count_dt = True, ["count"], draw(st.sampled_from(["int32", "int64"]))
         rows = draw(gen.pixels(n, True, count=st.integers(1, 1000), max_nnz=max_nnz))
@@ -90,7 +94,7 @@ def cases(draw, max_chroms=4, max_bins=6, max_nnz=None, min_total_bins=0):
         "chunksize": draw(st.integers(1, n + 1)) if form == "arrayloader" else None,
         "perm_seed": draw(st.integers(0, 2**16)) if form in ("frame-shuffled", "chunks-ensure-sorted", "frame-rows-shuffled") else None,
         # dtype of the bin id columns of the input (ids are small non-negative integers: any integer type that holds them is valid)
-        "id_dtype": draw(st.sampled_from(["int64", "int64", "int32", "int16", "uint16", "uint32", "uint64"])),
+        "id_dtype": draw(st.sampled_from(["int16", "int16", "uint16", "int32", "uint32"] if min_total_bins else ["int64", "int64", "int32", "int16", "uint16", "uint32", "uint64"])),
         "shuffle": draw(st.sampled_from(["within-rows", "full"])) if form == "chunks-ensure-sorted" else None,
         "junk": draw(st.booleans()),
         # row labels of the input frame(s): a fresh RangeIndex, or what earlier pandas operations leave behind
